@@ -68,6 +68,8 @@ type Ctx struct {
 	Decides  []string
 	NotDecid []string
 	Trusted  []string
+	// Extra is merged into the evidence coverage object.
+	Extra map[string]any
 
 	cache map[string]any
 }
@@ -339,6 +341,9 @@ func (c *Ctx) Finish(start time.Time, level string, findings []Finding) int {
 			"undecided":           len(res.Undecided),
 			"exhaustive":          true,
 		},
+	}
+	for k, v := range c.Extra {
+		ev["coverage"].(map[string]any)[k] = v
 	}
 	evDir := filepath.Join(c.VerifDir, "evidence")
 	os.MkdirAll(evDir, 0o755)
